@@ -357,6 +357,7 @@ let run_case (x : sx) : Stdlib.String.t =
                         fchain_fun_path fs (List.map (function L l -> cp l | _ -> failwith "bad function name") (getf "keyf"))
                     | [A "1"], _, _ when List.exists is_filter steps ->
                         (match fs with FS (RPlain s0) :: rest -> fchain_path0 s0 rest | _ -> failwith "a $-less path begins with a plain step")
+                    | _, [A a; A b], _ when List.exists is_filter steps -> fpadded_path (nat_of_int (int_of_string a)) (nat_of_int (int_of_string b)) fs
                     | _ when List.exists is_filter steps -> fchain_path fs
                     | _ when getf "keyf" <> [] ->
                         chain_fun_path ks (List.map (function L l -> cp l | _ -> failwith "bad function name") (getf "keyf"))
